@@ -25,8 +25,10 @@ MODELS = ['Model/Components.vo']   # .vo files the generated case files import
 PRE = 'From Spowtd Require Import Model.Components.\nClose Scope Q_scope.\n'
 
 
-def gen_collection(rng):
-    """Pieces of one decreasing curve (plus noise), optionally with a planted disconnected group."""
+def gen_collection(rng, tie=False):
+    """Pieces of one decreasing curve (plus noise), optionally with a planted disconnected group.
+    tie=True: one more piece is inserted that starts from EXACTLY the same level as the piece with the highest
+    initial level (a tie for the reference interval); its random numbers are drawn after all the others."""
     M = 80
     L = [0.0]
     for _ in range(M):
@@ -34,10 +36,12 @@ def gen_collection(rng):
     step = rng.choice([600.0, 1800.0, 3600.0])
     n = rng.randrange(2, 8)
     series = []
+    m0s = []
     m = rng.randrange(0, 10)
     for _ in range(n):
         ln = rng.randrange(3, 12)
         m0 = max(0, min(M - ln, m + rng.randrange(-4, 5)))
+        m0s.append(m0)
         t0 = float(rng.choice([0, 1361318400, 86400 * 3]))
         H = [L[m0 + i] + (rng.randrange(-8, 9) / 64.0 if rng.random() < 0.3 else 0.0) for i in range(ln + 1)]
         series.append((np.array([t0 + i * step for i in range(ln + 1)]), np.array(H)))
@@ -51,6 +55,17 @@ def gen_collection(rng):
             series.append((np.array([float(i) * step for i in range(ln + 1)]), np.array(H)))
         planted = k
     grid = rng.choice([0.5, 1.0, 2.0])
+    if tie:
+        for _ in range(rng.choice([1, 1, 1, 2])):       # sometimes a three-way tie
+            top = max(range(len(m0s)), key=lambda i: series[i][1][0])
+            ln = rng.randrange(3, 12)
+            ln = min(ln, M - m0s[top])
+            t0 = float(rng.choice([0, 1361318400, 86400 * 3]))
+            H = [series[top][1][0]] + [L[m0s[top] + i] + (rng.randrange(-8, 9) / 64.0 if rng.random() < 0.3 else 0.0)
+                                       for i in range(1, ln + 1)]
+            pos = rng.randrange(0, len(m0s) + 1)
+            series.insert(pos, (np.array([t0 + i * step for i in range(ln + 1)]), np.array(H)))
+            m0s.insert(pos, m0s[top])
     return series, grid, planted
 
 
@@ -62,6 +77,44 @@ def run_impl(series, grid):
                 {int(h): [(int(i), float(t)) for i, t in seq] for h, seq in mapping.items()})
     except Exception as e:  # pylint: disable=broad-except
         return ('err', C.err_of(e), repr(e))
+
+
+def fresh_mapping(series, grid):
+    """What the intervals cross, decided here from the samples alone (nothing of spowtd, no state): for every
+    interval and every multiple k of the grid step between two consecutive samples (lower end included, upper
+    excluded) the instant at which the chord equals k*step, on the interval's own axis starting at 0; mean per
+    (interval, level).  Exact fractions.  Returns {level: {interval: instant}}."""
+    import math
+    from fractions import Fraction as F
+    out = {}
+    for i, (t, H) in enumerate(series):
+        t = [F(float(v)) - F(float(min(t))) for v in t]
+        Y = [F(float(v) / grid) for v in H]
+        per = {}
+        for a in range(len(Y) - 1):
+            lo, hi = min(Y[a], Y[a + 1]), max(Y[a], Y[a + 1])
+            for k in range(math.ceil(lo), math.ceil(hi)):
+                per.setdefault(k, []).append(t[a] + (k - Y[a]) * (t[a + 1] - t[a]) / (Y[a + 1] - Y[a]))
+        for k, l in per.items():
+            out.setdefault(k, {})[i] = sum(l) / len(l)
+    return out
+
+
+def mapping_complaint(res, series, grid):
+    """The mapping returned by get_series_time_offsets against fresh_mapping: every returned (level, interval)
+    is a level that the interval crosses, at that instant; every level kept lists ALL the intervals crossing it."""
+    fresh = fresh_mapping(series, grid)
+    for h, seq in res[3].items():
+        want = fresh.get(h, {})
+        got = dict(seq)
+        if len(got) != len(seq) or set(got) != set(want):
+            return ('level %d (%s mm) is reported as crossed by intervals %s; from the samples it is crossed by %s'
+                    % (h, h * grid, sorted(i for i, _ in seq), sorted(want)))
+        for i, v in got.items():
+            if abs(v - float(want[i])) > 1e-6 * (1 + abs(float(want[i]))):
+                return ('interval %d crosses level %d (%s mm) at %r on its own axis; its samples give %r'
+                        % (i, h, h * grid, v, float(want[i])))
+    return None
 
 
 def master_of(res):
@@ -92,11 +145,28 @@ def main_body(series, grid):
 def check_collections(cols, out, label):
     import spowtd.fit_offsets as fo
     cc_cases, cc_meta, off_cases, off_meta = [], [], [], []
-    for series, grid, planted in cols:
+    for col in cols:
+        series, grid, planted = col[:3]
+        history = list(col[3]) if len(col) > 3 and col[3] else []
         out.evaluations += 1
         out.count('planted-disconnected' if planted else 'connected-only')
         case = dict(level='FL', grid=grid, series=[[t.tolist(), H.tolist()] for t, H in series])
+        if history:
+            # the same intervals have been aligned before in this process, on other grid steps: the earlier calls
+            # must not leave anything behind (their own results are checked against the samples too)
+            case['history'] = history
+            out.count('history: aligned before on another grid step')
+            for g0 in history:
+                r0 = run_impl(series, g0)
+                bad0 = mapping_complaint(r0, series, g0) if r0[0] == 'ok' else None
+                if bad0:
+                    out.violation('oracle', 'on grid step %s: %s' % (g0, bad0), case=dict(case, grid=g0, history=[]))
         base = run_impl(series, grid)
+        if base[0] == 'ok':
+            bad0 = mapping_complaint(base, series, grid)
+            if bad0:
+                out.violation('oracle', '%s%s' % ('after an earlier alignment of the same intervals on grid step(s) %s, on grid '
+                                                  'step %s: ' % (history, grid) if history else '', bad0), case=case)
         body, hm_raw = main_body(series, grid)
         if base[0] == 'err':
             if body is not None and len(body) >= 2:
@@ -313,6 +383,11 @@ def run(ctx, out):
     rng = C.rng_for(seed, PROP)
     n = 150 if tier == 'quick' else 1500
     cols = [gen_collection(rng) for _ in range(n)]
+    # a third of the collections have a history: the same intervals were aligned on another grid step first
+    rngh = C.rng_for(seed, PROP, 'history')
+    for k in range(0, n, 3):
+        series, grid, planted = cols[k]
+        cols[k] = (series, grid, planted, [rngh.choice([g for g in (0.5, 1.0, 2.0, 2.5) if g != grid])])
     check_collections(cols, out, 'fl')
     rng2 = C.rng_for(seed, PROP, 'sah')
     check_sah_direct([gen_sah(rng2) for _ in range(400 if tier == 'quick' else 4000)], out, 'cc')
@@ -323,13 +398,15 @@ def run(ctx, out):
         plans.append(CC.make_plan(rng3, n_events=rng3.randrange(3, 8), noise=(k % 2 == 0)))
     check_command_level(plans, out, 'cl')
     out.rule = ('Interval collections (2-7 pieces of one decreasing curve, some noisy, half with a planted disconnected '
-                'group) x {as is, permuted, per-interval axis shifts, reversed} through get_series_time_offsets. '
+                'group) x {as is, permuted, per-interval axis shifts, reversed} through get_series_time_offsets; a third of them '
+                'after the same intervals were aligned on another grid step in the same process; the returned crossings '
+                'against the samples (exact chords). '
                 'Non-trivial: planted disconnected group, unique largest component, >= 3 intervals included. '
                 'Plus arbitrary level->series dicts (0-12 levels, series in 1-3 clusters with occasional bridging levels, any insertion order) through '
                 'get_connected_components: reachability-class oracle and model; non-trivial: >= 5 levels, >= 2 classes '
                 'of more than one level.')
     out.samples = [dict(grid=cols[0][1], series=[[t.tolist(), H.tolist()] for t, H in cols[0][0]][:3])]
-    out.assumptions += ['crossing positions come from the implementation\'s build_head_mapping (C12 covers them)',
+    out.assumptions += ['the main body is decided from the implementation\'s build_head_mapping; the crossings actually returned are compared with exact chords of the samples (1e-6 relative)',
                         'the sort by initial level is replicated in the harness',
                         'component search correctness is proved for Model/Components.v (Proofs/ComponentsSpec.v); that the model equals the Python is sampled (correspondence) and cross-checked by the union-find oracle']
 
@@ -343,4 +420,4 @@ def replay(case, out):
         check_sah_direct([dict((h, set(ss)) for h, ss in case['sah'])], out, 'replay')
         return
     series = [(np.array(t), np.array(H)) for t, H in case['series']]
-    check_collections([(series, case['grid'], 0)], out, 'replay')
+    check_collections([(series, case['grid'], 0, case.get('history') or [])], out, 'replay')
